@@ -15,7 +15,7 @@ import random
 
 from simkit.driver import Check, base_result
 from ref import codec as C
-from checks.worlda import (WorldA, bystander_for, bystander_cost, draw_knobs, draw_sched, draw_stalls, draw_func_stalls, install_func_stalls, NODE_HOST, NODE_REALM,
+from checks.worlda import (WorldA, draw_clock_jumps, schedule_clock_jumps, bystander_for, bystander_cost, draw_knobs, draw_sched, draw_stalls, draw_func_stalls, install_func_stalls, NODE_HOST, NODE_REALM,
                            PEER_HOST, PEER_REALM)
 
 TAG = 99999
@@ -95,11 +95,18 @@ class C05(Check):
                 {"n": m, "pads": pads, "kinds": ["req"] * m, "wait": 0.0}]
             inbound = []
             stalls = []
-        return {"mode": rng.choice(["CLIENT", "SERVER"]), "subs": subs, "inbound": inbound,
-                "write_stalls": stalls, "thread_stalls": draw_stalls(rng, span=600),
-                "func_stalls": func_stalls, "bystander": bystander_for(index),
-                "sched": draw_sched(rng), "knobs": knobs, "net": net,
-                "watchdog": 30, "horizon": 120.0}
+        scn = {"mode": rng.choice(["CLIENT", "SERVER"]), "subs": subs, "inbound": inbound,
+               "write_stalls": stalls, "thread_stalls": draw_stalls(rng, span=600),
+               "func_stalls": func_stalls, "bystander": bystander_for(index),
+               "sched": draw_sched(rng), "knobs": knobs, "net": net,
+               "watchdog": 30, "horizon": 120.0}
+        # later additions draw from a generator of their own (the stream above stays what it was)
+        rng2 = random.Random(rng.getrandbits(48))
+        scn["clock_jumps"] = draw_clock_jumps(rng2, span=0.25)
+        for sub in scn["subs"]:
+            # the application keeps ONE list as its outbox: fills it, hands it to send_messages(), clears it
+            sub["reuse_list"] = rng2.random() < 0.35
+        return scn
 
     def shrink(self, scn):
         subs = scn["subs"]
@@ -216,8 +223,9 @@ class C05(Check):
                 if spec["start"]:
                     sim.sleep(spec["start"])
                 seq = 0
+                outbox = []
                 for op in spec["ops"]:
-                    batch = []
+                    batch = outbox if spec.get("reuse_list") else []
                     for j in range(op["n"]):
                         m, tag = make(si, seq, op["kinds"][j], op["pads"][j])
                         raw = m.dump()
@@ -232,6 +240,10 @@ class C05(Check):
                     elif batch:
                         w.node.send_messages(batch)
                     stats["submitted"] += len(batch)
+                    if spec.get("reuse_list"):
+                        # the list is the caller's: emptying it after the call has returned must not matter
+                        outbox.clear()
+                        stats["list_reused"] = stats.get("list_reused", 0) + 1
                     if op["wait"]:
                         sim.sleep(op["wait"])
                 return True
@@ -242,6 +254,7 @@ class C05(Check):
             install_func_stalls(sim, scn.get("func_stalls"))
             recs = [w.call("submitter%d" % si, submitter, si, spec) for si, spec in enumerate(scn["subs"])]
             t0 = sim.now
+            schedule_clock_jumps(sim, scn.get("clock_jumps"))
             for k, ib in enumerate(scn["inbound"]):
                 def go(k=k, ib=ib):
                     hb = 0x41000000 + k
@@ -277,6 +290,16 @@ class C05(Check):
                 return tags >= sum(s_["count"] for s_ in submitted)
             sim.wait_until(all_written, D, poll=D / 40.0)
             sim.sleep(min(1.0, 30 * tick + 0.1))
+
+            def stream_settled():
+                # a message the node is still in the middle of writing (its own DWA behind a partial write,
+                # a stalled transport thread) is not a torn one: judge the stream once no write is in progress
+                fr_ = C.Framer()
+                fr_.feed(bytes(data_sock.tx_bytes[tx0:]))
+                return bool(fr_.broken) or not fr_.buf
+            if not stream_settled():
+                sim.probe("verdict_waited_for_write_in_progress")
+                sim.wait_until(stream_settled, D, poll=D / 40.0)
             stats["data_sock"] = data_sock
 
         sim.run_main(main)
